@@ -45,6 +45,29 @@ Theorem C11_function_imports_agree : forall m, opset_ok m = true ->
 Proof. exact opset_ok_function_imports. Qed.
 Print Assumptions C11_function_imports_agree.
 
+(* (V) element types: for every node input whose element type is known in its graph (graph inputs, initializers,
+   value_info, outputs of Constant/Cast), the type is among those the schema version SELECTED BY THE DECLARED OPSET
+   allows for that formal input (a variadic last formal covers the remaining actuals); masks the dump cannot express
+   as tensor element types are negative and not checked. *)
+Theorem C11_opset_ok_types_sound : forall m, opset_ok m = true ->
+  (forall g n, In g (om_graphs m) -> In n (og_nodes g) ->
+     forall sv i name dt mask, selected_schema (om_functions m) (om_opsets m) n = Some sv ->
+       nth_error (on_ins n) i = Some name -> lookup (known_types g) name = Some dt -> formal_mask sv i = Some mask ->
+       mask < 0 \/ dt < 0 \/ Z.testbit mask dt = true) /\
+  (forall f n, In f (om_functions m) -> In n (of_nodes f) ->
+     forall sv i name dt mask, selected_schema (om_functions m) (of_opsets f) n = Some sv ->
+       nth_error (on_ins n) i = Some name -> lookup (fun_known_types f) name = Some dt -> formal_mask sv i = Some mask ->
+       mask < 0 \/ dt < 0 \/ Z.testbit mask dt = true).
+Proof. exact opset_ok_types_sound. Qed.
+Print Assumptions C11_opset_ok_types_sound.
+
+(* selected_schema is the version the declarative statement talks about *)
+Theorem C11_selected_schema_spec : forall funs imports n sv, selected_schema funs imports n = Some sv ->
+  exists declared tbl vs, opset_of imports (on_domain n) = Some declared /\ (forall f, ~ calls_function funs n f) /\
+    domain_table (on_domain n) = Some tbl /\ In (on_op n, vs) tbl /\ is_version_at vs declared sv.
+Proof. exact selected_schema_spec. Qed.
+Print Assumptions C11_selected_schema_spec.
+
 (* (V) every body reachable from the main graph through graph attributes is in the table and conforms *)
 Theorem C11_opset_ok_nested : forall m, opset_ok m = true -> om_graphs m <> [] ->
   forall i, reachable m i -> exists g, graph_by_id m i = Some g /\ forall n, In n (og_nodes g) -> node_conforms m n.
